@@ -65,9 +65,52 @@ fn account(ctx: &mut Ctx, sub: &str, h: &History, res: &Result<Stats, Fail>) {
     ctx.sample(sub, || json!(h));
 }
 
+/// A history is a few dozen library calls (well under 10 ms). It runs on a worker thread; if it has not come back
+/// after `STALL` it is run once more, and if that attempt does not come back either, some call in it does not
+/// terminate (e.g. a rejection sampler whose cached constants no longer belong to its parameters): reported as a
+/// violation, because a fresh twin with the same parameters is exactly what the history is compared with and
+/// twins are sampled in every other history without trouble. The abandoned workers keep spinning, so after the first
+/// report histories of that distribution are skipped (no shrinking of a hanging case).
+const STALL: std::time::Duration = std::time::Duration::from_secs(45);
+static HUNG: [std::sync::atomic::AtomicBool; 16] = [const { std::sync::atomic::AtomicBool::new(false) }; 16];
+
+fn run_watched(h: &History) -> Option<Result<Stats, Fail>> {
+    let (tx, rx) = std::sync::mpsc::channel();
+    let hc = h.clone();
+    let spawned = std::thread::Builder::new().name("c18-history".into()).spawn(move || {
+        let r = crate::engine::catch(std::panic::AssertUnwindSafe(|| run_history(&hc)));
+        let _ = tx.send(r);
+    });
+    if spawned.is_err() {
+        return Some(run_history(h));
+    }
+    match rx.recv_timeout(STALL) {
+        Ok(Ok(r)) => Some(r),
+        Ok(Err(msg)) => Some(Err(Fail { sig: format!("C18/{}/harness-panic", DIST_NAMES[h.dist as usize % N_DIST]), what: msg })),
+        Err(_) => None,
+    }
+}
+
 fn check_as(ctx: &mut Ctx, kind: &str, h: &History) -> R {
     let sub = sub_of(kind, h.dist);
-    let res = run_history(h);
+    let di = h.dist as usize % N_DIST;
+    if HUNG[di].load(std::sync::atomic::Ordering::SeqCst) {
+        return Ok(());
+    }
+    let res = match run_watched(h).or_else(|| run_watched(h)) {
+        Some(r) => r,
+        None => {
+            HUNG[di].store(true, std::sync::atomic::Ordering::SeqCst);
+            Err(Fail {
+                sig: format!("C18/{}/hang", DIST_NAMES[di]),
+                what: format!(
+                    "{}: a history of valid and rejected parameter changes did not finish within {} s, twice (a history is a few dozen calls): some call on the object or its twin does not terminate",
+                    DIST_NAMES[di],
+                    STALL.as_secs()
+                ),
+            })
+        }
+    };
     account(ctx, &sub, h, &res);
     res.map(|_| ())
 }
@@ -88,7 +131,13 @@ pub struct BytesCase {
 
 pub fn check_bytes(ctx: &mut Ctx, c: &BytesCase) -> R {
     let h = History::from_bytes(&c.bytes);
-    let res = run_history(&h);
+    if HUNG[h.dist as usize % N_DIST].load(std::sync::atomic::Ordering::SeqCst) {
+        return Ok(());
+    }
+    let res = match run_watched(&h) {
+        Some(r) => r,
+        None => return Ok(()), // reported by the hist / grid sub-checks of that distribution
+    };
     account(ctx, "bytes", &h, &res);
     res.map(|_| ())
 }
@@ -223,12 +272,43 @@ point, any change on a law with a cached helper sampler); distinct by hash of th
     for dist in 0..N_DIST as u8 {
         let hs = grid_histories(dist, crate::engine::mix_seed(ctx.seed, "C18/grid", dist as u64));
         grid_total += hs.len();
-        let res = par_map(&hs, 16, |_, h| run_history(h));
+        // watched like every other history (see `run_watched`); `None` = did not come back, twice
+        let res = par_map(&hs, 16, |_, h| {
+            if HUNG[h.dist as usize % N_DIST].load(std::sync::atomic::Ordering::SeqCst) {
+                return None;
+            }
+            let r = run_watched(h).or_else(|| run_watched(h));
+            if r.is_none() {
+                HUNG[h.dist as usize % N_DIST].store(true, std::sync::atomic::Ordering::SeqCst);
+            }
+            Some(r)
+        });
         let sub = sub_of("grid", dist);
+        let mut hang_reported = false;
         for (h, r) in hs.iter().zip(res.iter()) {
-            account(ctx, &sub, h, r);
-            if let Err(f) = r {
-                ctx.handle_fail(&sub, f, h);
+            match r {
+                None => {} // skipped after a hang of this distribution was seen
+                Some(Some(r)) => {
+                    account(ctx, &sub, h, r);
+                    if let Err(f) = r {
+                        ctx.handle_fail(&sub, f, h);
+                    }
+                }
+                Some(None) => {
+                    if !hang_reported {
+                        hang_reported = true;
+                        let f = Fail {
+                            sig: format!("C18/{}/hang", DIST_NAMES[dist as usize]),
+                            what: format!(
+                                "{}: a history of at most two parameter changes did not finish within {} s, twice: some call on the object or its twin does not terminate",
+                                DIST_NAMES[dist as usize],
+                                STALL.as_secs()
+                            ),
+                        };
+                        account(ctx, &sub, h, &Err(Fail { sig: f.sig.clone(), what: f.what.clone() }));
+                        ctx.handle_fail(&sub, &f, h);
+                    }
+                }
             }
         }
     }
@@ -274,6 +354,16 @@ point, any change on a law with a cached helper sampler); distinct by hash of th
         }
     }
     ctx.exhaustive.push("NaN treated alike by constructor / setter / update: every real-valued parameter of the 13 distributions".into());
+    // Default::default() of every distribution
+    for dist in 0..N_DIST as u8 {
+        for j in 0..ctx.scale(8, 64) {
+            let h = crate::engine::mix_seed(ctx.seed, "C18/default", (dist as u64) << 8 | j);
+            let c = DefaultCase { dist, a: h as u16, b: (h >> 16) as u16 };
+            let sub = format!("default/{}", DIST_NAMES[dist as usize]);
+            ctx.check_one(&sub, &c, check_default);
+        }
+    }
+    ctx.exhaustive.push("Default::default() of the 13 distributions: in-domain probes, then a valid bulk update compared with a fresh twin".into());
     // byte-decoded histories (all distributions mixed; exercises the fuzz decoder)
     ctx.run_prop_par("bytes", ctx.scale(4_000, 50_000), 8, || proptest::collection::vec(any::<u8>(), 0..160).prop_map(|bytes| BytesCase { bytes }), check_bytes);
     // coverage-guided campaign (libFuzzer, ASan) over the same decoder and oracle: thorough tier only
@@ -391,6 +481,62 @@ pub fn check_nan_alike(ctx: &mut Ctx, c: &NanCase) -> R {
     Ok(())
 }
 
+/// `Default::default()` is a constructor too: the object it returns must hold in-domain parameters. Which ones is not
+/// fixed by the statement, so only what is true of *every* valid member is asserted: the density is a number >= 0 (not
+/// NaN) on a grid across the universal support, the variance is not negative, draws lie in the universal support,
+/// and the first valid bulk update turns the object into the twin of those parameters.
+#[derive(Clone, Debug, serde::Serialize, serde::Deserialize)]
+pub struct DefaultCase {
+    pub dist: u8,
+    pub a: u16,
+    pub b: u16,
+}
+
+pub fn check_default(ctx: &mut Ctx, c: &DefaultCase) -> R {
+    if c.dist as usize >= N_DIST {
+        return Ok(());
+    }
+    let name = DIST_NAMES[c.dist as usize];
+    let sub = format!("default/{}", name);
+    ctx.case(&sub, "default-constructor", true, Hx::new().json(c).finish());
+    ctx.sample(&sub, || json!(c));
+    let sig = |k: &str| format!("C18/{}/default/{}", name, k);
+    let mut obj = match Obj::default_of(c.dist) {
+        Ok(o) => o,
+        Err(m) => return crate::engine::fail(sig("panic"), format!("{}::default() panicked: {}", name, m)),
+    };
+    let kind = if is_discrete(c.dist) { "pmf" } else { "pdf" };
+    for &x in probe_points(c.dist, &default_params(c.dist)).iter() {
+        if let Ok(d) = obj.density(x) {
+            ensure!(!(d.is_nan() || d < 0.0), sig("out-of-domain"), "{}::default(): {}({:e}) = {:e}; no member of the family has such a density", name, kind, x, d);
+        }
+    }
+    if let Ok(v) = obj.var() {
+        ensure!(!(v < 0.0), sig("out-of-domain"), "{}::default(): var() = {:e} < 0", name, v);
+    }
+    let p = valid_params(c.dist, c.a, c.b);
+    if !in_domain(c.dist, &p) {
+        return Ok(());
+    }
+    if let Err(m) = obj.update(&p) {
+        return crate::engine::fail(sig("update-rejected"), format!("{}::default().update({:?}) — valid parameters — panicked: {}", name, p, m));
+    }
+    let twin = match Obj::construct(c.dist, &p) {
+        Ok(t) => t,
+        Err(m) => return crate::engine::fail(format!("C18/{}/new/valid-rejected", name), format!("{}::new{:?} (valid parameters) panicked: {}", name, p, m)),
+    };
+    for &x in probe_points(c.dist, &p).iter() {
+        let (a, b) = (obj.density(x), twin.density(x));
+        let same = match (&a, &b) {
+            (Ok(u), Ok(v)) => u.to_bits() == v.to_bits() || (u.is_nan() && v.is_nan()),
+            (Err(_), Err(_)) => true,
+            _ => false,
+        };
+        ensure!(same, sig("twin"), "{}::default() then update({:?}): {}({:e}) = {:?}, a fresh object gives {:?}", name, p, kind, x, a, b);
+    }
+    Ok(())
+}
+
 fn bulk_strat() -> impl Strategy<Value = BulkCase> {
     (0..N_DIST as u8, any::<u16>(), any::<u16>(), 0..BULK_SIZES.len(), 0usize..4, any::<u64>()).prop_map(|(dist, a, b, si, ci, seed)| {
         let n = BULK_SIZES[si];
@@ -406,6 +552,9 @@ pub fn replay(ctx: &mut Ctx, sub: &str, v: Value) -> Option<R> {
     }
     if sub == "bytes" {
         return Some(check_bytes(ctx, &decode::<BytesCase>(v)?));
+    }
+    if sub.starts_with("default/") {
+        return Some(check_default(ctx, &decode::<DefaultCase>(v)?));
     }
     if sub.starts_with("nan-alike/") {
         return Some(check_nan_alike(ctx, &decode::<NanCase>(v)?));
